@@ -344,7 +344,22 @@ def _F25():
     return any(t is not None and not torch.isfinite(t).all() for t in g)
 
 
-REPLAYS = {'F24': _F24, 'F25': _F25, 'F1-linear': _F1('lin'), 'F1-quadratic': _F1('quad'), 'F1-cubic': _F1('cubic'), 'F2': _F2, 'F3': _F3, 'F4': _F4,
+def _F26():
+    """cubic inverse at the upper end of the box with a bin whose right-end derivative is ~1e-13: NaN before c64b8d4"""
+    from nflows.transforms.splines import cubic
+    d = torch.float64
+    uw = torch.tensor([[4.48458777751344, -5.585793871578711, 13.891890674159548]], dtype=d)
+    uh = torch.tensor([[11.549948023183198, 6.283586693125125, 2.8481076635106293]], dtype=d)
+    dl = torch.tensor([[11.775860094804058]], dtype=d); dr = torch.tensor([[-22.619951080641542]], dtype=d)
+    for yv in (2.0, math.nextafter(2.0, 0.0)):
+        x, ld = cubic.unconstrained_cubic_spline(torch.tensor([yv], dtype=d), uw, uh, dl, dr, inverse=True, tail_bound=2.0,
+                                                 min_bin_width=1e-3, min_bin_height=1e-3)
+        if not (torch.isfinite(x).all() and torch.isfinite(ld).all() and abs(x.item() - 2.0) < 1e-6):
+            return True
+    return False
+
+
+REPLAYS = {'F24': _F24, 'F25': _F25, 'F26': _F26, 'F1-linear': _F1('lin'), 'F1-quadratic': _F1('quad'), 'F1-cubic': _F1('cubic'), 'F2': _F2, 'F3': _F3, 'F4': _F4,
            'F6': _F6, 'F9': _F9, 'F12': _F12, 'F13': _F13, 'F16': _F16, 'F17': _F17}
 
 
